@@ -16,6 +16,23 @@
     fails) and is kept only for the witness theorem `temp_leak_pre_fix`.
   * `exec` returns the outcome and the directory state after **every** executed operation, so
     "at every instant (operation granularity)" is "for every state in the trace, under every plan".
+  * Faults: `raise` = the operation raises an `Exception` (OSError, KeyNotInContextError, …);
+    `raiseBase` = it raises a `BaseException` that is NOT an `Exception` (KeyboardInterrupt, SystemExit,
+    GeneratorExit, CancelledError); `kill` = the process dies. The clean-up handlers of the protocol are
+    `except BaseException:` (fix 66bb5ed; `Cfg.cleanupBase`): both kinds of error remove the temp file and
+    propagate. Before that fix they were `except Exception:` — a BaseException passed them by and the temp
+    file stayed (`cleanupBase = false`, kept for the witness `base_exception_temp_stays_pre_fix`).
+    `remove_temp_file` itself still swallows only `Exception`s of its `os.remove`.
+  * The close of the SOURCE file is an operation of its own (`closeIn`): StreamRewriter keeps the source
+    open while it writes (`with open(in_path) as infile:` encloses the temp-file block; the source is
+    closed between the close of the temp file and `move_temp_file`), ObjectRewriter closes it right
+    after `load`, before the temp file is made (`Job.early`). Since 66bb5ed StreamRewriter's
+    `with open(in_path)` sits INSIDE the `try` of the in-place branch: a failing close of the source
+    removes the temp file like any other failure (`Cfg.closeInTry`; before, it was outside every `try`:
+    witness `closeIn_failure_leaves_temp_pre_fix`).
+  * `Job.dst`: the in path's last component is a symlink. `open(in_path)` reads the link's target
+    (`src`), the temp file is made in the LINK's directory, and `os.replace(temp, in_path)` replaces the
+    link itself (entry `dst`) by a regular file; the target keeps its bytes.
 
   * Same-file-ness is explicit (`Links`): the OS resolves a path *spelling* (relative, absolute, with
     `..`, through symlinked directories or a symlink to the file) to a directory entry (`resolve` =
@@ -65,7 +82,11 @@ end Fs
 /-- What the environment does to the i-th executed operation. `kill`: the process dies just before
     the operation takes effect (dying just after it = dying before the next one). -/
 inductive Fault where
-  | none | raise | kill
+  | none
+  | raise       -- the operation raises an `Exception`
+  | raiseBase   -- it raises a BaseException that is not an Exception (KeyboardInterrupt, SystemExit,
+                -- GeneratorExit): caught by the clean-up handlers only since they are `except BaseException:`
+  | kill
   deriving DecidableEq, Repr, Inhabited
 
 abbrev Plan := Nat → Fault
@@ -84,6 +105,7 @@ def Plan.double (p : Nat) (k : Fault) (q : Nat) (k' : Fault) : Plan :=
 inductive Op where
   | sameFile                          -- `is_same_file(in_path, out_path)`: stats only
   | openRead (src : String)           -- `open(in_path)` (+ `representer.load` for ObjectRewriter)
+  | closeIn                           -- leaving `with open(in_path) … as infile`: close of the source file
   | mkTemp (tmp : String)             -- `NamedTemporaryFile(dir=dirname(in_path), delete=False)`
   | openWrite (out : String) (peers : List String := [])
                                       -- `open(out_path, 'w')` (only when out is another file); `out` is the
@@ -91,7 +113,8 @@ inductive Op where
   | fmt (i : Nat)                     -- formatting of line i / of the whole object (i = 0)
   | write (i : Nat) (chunk : String)  -- `outfile.write(chunk_i)`
   | close                             -- leaving the `with`: flush + close of `outfile`
-  | replace (src : String)            -- `os.replace(outfile.name, infile.name)` in `move_file`
+  | replace (dst : String)            -- `os.replace(outfile.name, infile.name)` in `move_file`; `dst` is the
+                                      -- directory entry the in path names (the link itself when it is a symlink)
   deriving DecidableEq, Repr, Inhabited
 
 /-- Operations that occur between opening the output and closing it. -/
@@ -104,9 +127,14 @@ def Op.isReplace : Op → Bool
   | .replace _ => true
   | _ => false
 
+def Op.isCloseIn : Op → Bool
+  | .closeIn => true
+  | _ => false
+
 def Op.label : Op → String
   | .sameFile => "sameFile"
   | .openRead _ => "openRead"
+  | .closeIn => "closeIn"
   | .mkTemp _ => "mkTemp"
   | .openWrite _ _ => "openWrite"
   | .fmt _ => "fmt"
@@ -140,12 +168,13 @@ def apply : Op → St → Option St
       | none => none
       | some old => some { st with fs := (st.fs.set t (old ++ c)).setMany st.peers (old ++ c) }
   | .close, st => some st
-  | .replace src, st =>
+  | .closeIn, st => some st
+  | .replace dst, st =>
     match st.temp with
     | none => none
     | some t => match st.fs.get? t with
       | none => none
-      | some c => some { st with fs := (st.fs.erase t).set src c }
+      | some c => some { st with fs := (st.fs.erase t).set dst c }
 
 inductive Outcome where
   | ok
@@ -161,33 +190,52 @@ structure Cfg where
   /-- the `except Exception: if outfile: remove_temp_file(outfile.name); raise` around the write
       phase (present in the code now; absent before fix c58f36c). -/
   cleanupWrite : Bool := true
+  /-- the clean-up handlers (both `in_to_out`s, `move_temp_file`) are `except BaseException:` (the code now,
+      fix 66bb5ed); `false`: `except Exception:` — a KeyboardInterrupt / SystemExit / GeneratorExit passes
+      them by. -/
+  cleanupBase : Bool := true
+  /-- StreamRewriter's `with open(in_path)` is inside the `try` of the in-place branch (the code now, fix
+      66bb5ed): a failing close of the source file is cleaned up; `false`: it was outside every `try`. -/
+  closeInTry : Bool := true
   deriving DecidableEq, Repr, Inhabited
 
-/-- The `except` clauses: operation `i` (= `op`) raised in state `st`.
-    `move_temp_file` always removes the temp when `os.replace` fails; the write phase does so
-    when `cfg.cleanupWrite`. `remove_temp_file` is operation `i+1`; if it raises, that error is
-    logged and swallowed (the temp stays); the original error propagates. Returns the outcome and
-    the events: the failed operation (label ending in `!`, state unchanged) and the clean-up. -/
+/-- The clean-up clauses (`except BaseException: if outfile: remove_temp_file(outfile.name); raise`):
+    operation `i` (= `op`) raised — an `Exception`, or a BaseException when `cfg.cleanupBase` — in state `st`.
+    `move_temp_file` always removes the temp when `os.replace` fails; the write phase (formatting, writes,
+    the close of the temp file and — `cfg.closeInTry` — the close of the source file) does so when
+    `cfg.cleanupWrite`. `remove_temp_file` is operation `i+1`: if its `os.remove` raises an `Exception`,
+    that error is logged and swallowed (the temp stays) and the original error propagates; if it raises a
+    BaseException, THAT propagates (`except Exception as ex_clean` does not catch it; the temp stays).
+    Returns the outcome and the events: the failed operation (label ending in `!`, state unchanged)
+    and the clean-up (`removeTemp`, or `removeTemp!` when it failed). -/
 def handler (cfg : Cfg) (plan : Plan) (i : Nat) (op : Op) (st : St) : Outcome × Trace :=
   let ev : String × Fs := (op.label ++ "!", st.fs)
   match st.temp with
   | none => (.raised i, [ev])
   | some t =>
-    if op.isReplace || cfg.cleanupWrite then
+    if op.isCloseIn && !cfg.closeInTry then (.raised i, [ev])
+    else if op.isReplace || cfg.cleanupWrite then
       match plan (i + 1) with
       | .kill => (.killed (i + 1), [ev])
       | .raise => (.raised i, [ev, ("removeTemp!", st.fs)])
+      | .raiseBase => (.raised (i + 1), [ev, ("removeTemp!", st.fs)])
       | .none => (.raised i, [ev, ("removeTemp", st.fs.erase t)])
     else (.raised i, [ev])
 
 /-- Interpret an operation list from index `i` in state `st` under `plan`. Returns the outcome and
-    the trace: the directory state after every executed operation (in order). -/
+    the trace: the directory state after every executed operation (in order). A BaseException
+    (`raiseBase`) goes through the same clean-up clauses as an Exception when they are
+    `except BaseException:` (`cfg.cleanupBase`, the code now); before 66bb5ed it passed them by: the event of
+    the failed operation, nothing else.
+    (While an error propagates out of StreamRewriter's `with open(in_path)` the source file is closed
+    on the way; that implicit close changes nothing in the directory and is not an operation here.) -/
 def exec (cfg : Cfg) (plan : Plan) : Nat → St → List Op → Outcome × Trace
   | _, _, [] => (.ok, [])
   | i, st, op :: rest =>
     match plan i with
     | .kill => (.killed i, [])
     | .raise => handler cfg plan i op st
+    | .raiseBase => if cfg.cleanupBase then handler cfg plan i op st else (.raised i, [(op.label ++ "!", st.fs)])
     | .none =>
       match apply op st with
       | none => handler cfg plan i op st
@@ -204,14 +252,26 @@ def newContent : List Op → String
   | .write _ c :: rest => c ++ newContent rest
   | _ :: rest => newContent rest
 
-/-- In-place route: temp file in the same directory, then rename over the source. -/
-def inplaceOps (src tmp : String) (body : List Op) : List Op :=
-  [.sameFile, .openRead src, .mkTemp tmp] ++ body ++ [.close, .replace src]
+/-- The operations after the write phase on the in-place route. StreamRewriter (`early = false`): the
+    temp file is closed, then the source file (leaving the outer `with`), then `move_temp_file`.
+    ObjectRewriter (`early = true`): the source was closed long ago. -/
+def tailOps (early : Bool) (dst : String) : List Op :=
+  if early then [.close, .replace dst] else [.close, .closeIn, .replace dst]
+
+/-- The operations before the write phase on the in-place route. -/
+def headOps (early : Bool) (src tmp : String) : List Op :=
+  if early then [.sameFile, .openRead src, .closeIn, .mkTemp tmp] else [.sameFile, .openRead src, .mkTemp tmp]
+
+/-- In-place route: temp file in the directory of the in path, then rename over the entry `dst` the in
+    path names (`dst = src` unless the in path's last component is a symlink). -/
+def inplaceOps (early : Bool) (src dst tmp : String) (body : List Op) : List Op :=
+  headOps early src tmp ++ (body ++ tailOps early dst)
 
 /-- Out is another file: written directly (not claimed to be all-or-nothing). `peers`: the other
     directory entries that are links to the inode of `out`. -/
-def directOps (src out : String) (body : List Op) (peers : List String := []) : List Op :=
-  [.sameFile, .openRead src, .openWrite out peers] ++ body ++ [.close]
+def directOps (early : Bool) (src out : String) (body : List Op) (peers : List String := []) : List Op :=
+  if early then [.sameFile, .openRead src, .closeIn, .openWrite out peers] ++ (body ++ [.close])
+  else [.sameFile, .openRead src, .openWrite out peers] ++ (body ++ [.close, .closeIn])
 
 /-- `is_same_file(path1, path2)`: both given, both existing files, same file.
     Paths are canonical names, so "same file" is equality of names. -/
@@ -227,15 +287,23 @@ structure Job where
   out : Option String := none
   tmp : String
   body : List Op
+  /-- ObjectRewriter: the source file is closed right after `load`, before the temp file exists. -/
+  early : Bool := false
+  /-- the in path's last component is a symlink: the directory entry of the link itself (where
+      `os.replace` lands); `none`: the in path names `src` itself. -/
+  dst : Option String := none
   deriving Repr, Inhabited
+
+/-- The directory entry `os.replace(temp, in_path)` lands on. -/
+def Job.target (j : Job) : String := j.dst.getD j.src
 
 /-- The routing at the top of `in_to_out`: `if is_same_file(in, out): out_path = None`, then
     `if out_path:` direct `else:` temp + replace. -/
 def jobOps (fs : Fs) (j : Job) : List Op :=
   let out := if isSameFile fs j.src j.out then none else j.out
   match out with
-  | some o => if o != "" then directOps j.src o j.body else inplaceOps j.src j.tmp j.body
-  | none => inplaceOps j.src j.tmp j.body
+  | some o => if o != "" then directOps j.early j.src o j.body else inplaceOps j.early j.src j.target j.tmp j.body
+  | none => inplaceOps j.early j.src j.target j.tmp j.body
 
 def runJob (cfg : Cfg) (plan : Plan) (i : Nat) (fs : Fs) (j : Job) : Outcome × Trace :=
   exec cfg plan i { fs := fs } (jobOps fs j)
@@ -308,17 +376,23 @@ def route (l : Links) (fs : Fs) (j : Job) : Option String :=
   | none => none
 
 /-- `in_to_out(in_path, out_path)` with same-file-ness decided on inodes. `j.src` is the resolved
-    entry of the in path (its last component is not a symlink); `j.out` is a spelling. -/
+    entry of the in path (what `open(in_path)` reads and `is_same_file` compares; when the last
+    component of the in path is a symlink, `j.dst` is the link's own entry); `j.out` is a spelling. -/
 def jobOpsL (l : Links) (fs : Fs) (j : Job) : List Op :=
   match route l fs j with
-  | some o => directOps j.src o j.body (l.peers o)
-  | none => inplaceOps j.src j.tmp j.body
+  | some o => directOps j.early j.src o j.body (l.peers o)
+  | none => inplaceOps j.early j.src j.target j.tmp j.body
 
-/-- The link table after a `in_to_out` that ended ok: `os.replace(temp, src)` makes `src` name the
-    temp file's (new) inode; a direct write to a missing `out` creates an inode. -/
+/-- The link table after a `in_to_out` that ended ok: `os.replace(temp, in_path)` makes the entry the
+    in path names hold the temp file's (new) inode; a direct write to a missing `out` creates an inode. -/
 def linksAfter (l : Links) (fs : Fs) (j : Job) : Links :=
   match route l fs j with
-  | none => l.bind j.src l.fresh
+  | none =>
+    match j.dst with
+    | none => l.bind j.src l.fresh
+    | some d =>
+      -- the link `d` is now a regular file of its own: the spelling no longer resolves to the target
+      { (l.bind d l.fresh) with entry := l.entry.filter (·.1 != d) }
   | some o => if fs.contains o then l else l.bind o l.fresh
 
 def runJobL (cfg : Cfg) (plan : Plan) (i : Nat) (l : Links) (fs : Fs) (j : Job) : Outcome × Trace :=
@@ -426,26 +500,40 @@ def isTempName (p : String) : Bool :=
   ['t', 'm', 'p', '#'].isPrefixOf base
 
 structure Verdict where
-  srcWhole : Bool        -- every matched source holds its complete original or complete new bytes
-  okAllNew : Bool        -- after success every matched source holds the new bytes
+  srcWhole : Bool        -- every matched source holds its complete original or a complete new content
+  okAllNew : Bool        -- after success every matched source holds its (last) new bytes
   noExtra : Bool         -- after ok / raise: exactly the original entries; after kill: only tmp# extra
   noneMissing : Bool     -- no original entry disappeared
   unmatchedSame : Bool   -- every entry not matched by `in` is byte-identical
+  onlyTempExtra : Bool   -- every extra entry is a tmp# entry (however the run ended)
   deriving DecidableEq, Repr, Inhabited
 
+/-- The statement of C15. -/
 def Verdict.holds (v : Verdict) : Bool :=
   v.srcWhole && v.okAllNew && v.noExtra && v.noneMissing && v.unmatchedSame
 
+/-- What is left of the statement when the clean-up's own `os.remove` fails too (and, before fix 66bb5ed,
+    when the failure was a BaseException or a failing close of the source file): everything except "no
+    temporary file left behind" — the only extra entries are temp files. -/
+def Verdict.holdsDirty (v : Verdict) : Bool :=
+  v.srcWhole && v.okAllNew && v.onlyTempExtra && v.noneMissing && v.unmatchedSame
+
+/-- The new content of the LAST rewrite of `p` in the run (`in` may match a file more than once:
+    `get_glob` chains the per-pattern globs without de-duplication). -/
+def lastNew (srcs : List (String × String)) (p : String) : Option String :=
+  (srcs.reverse.find? (·.1 == p)).map (·.2)
+
 def judge (before after : Fs) (srcs : List (String × String)) (e : End) : Verdict :=
-  { srcWhole := srcs.all fun (p, new) =>
+  { srcWhole := srcs.all fun (p, _) =>
       match after.get? p with
       | none => false
-      | some c => before.get? p == some c || c == new
-    okAllNew := e != .ok || srcs.all fun (p, new) => after.get? p == some new
+      | some c => before.get? p == some c || srcs.any fun (q, new) => q == p && c == new
+    okAllNew := e != .ok || srcs.all fun (p, _) => after.get? p == lastNew srcs p
     noExtra := after.names.all fun p =>
       before.contains p || (e == .killed && isTempName p)
     noneMissing := before.names.all fun p => after.contains p
     unmatchedSame := before.all fun (p, c) =>
-      (srcs.any fun s => s.1 == p) || after.get? p == some c }
+      (srcs.any fun s => s.1 == p) || after.get? p == some c
+    onlyTempExtra := after.names.all fun p => before.contains p || isTempName p }
 
 end Pypyr.FsRewrite
